@@ -208,6 +208,16 @@ fn slot_index() -> usize {
     rayon::current_thread_index().map(|i| i + 1).unwrap_or(0) % NSLOTS
 }
 
+/// Known-finding match: exact, except that panic signatures may be listed by a prefix
+/// (the text after the listed part is message payload).
+pub fn key_matches(listed: &str, actual: &str) -> bool {
+    listed == actual
+        || (listed.contains("panic")
+            && listed.contains('@')
+            && listed.len().min(actual.len()) >= 24
+            && (actual.starts_with(listed) || listed.starts_with(actual)))
+}
+
 fn splitmix(mut x: u64) -> u64 {
     x = x.wrapping_add(0x9E3779B97F4A7C15);
     let mut z = x;
@@ -400,7 +410,7 @@ impl Run {
     }
 
     fn is_known(&self, key: &str) -> Option<&KnownEntry> {
-        self.known.iter().find(|k| k.status == "known" && k.key == key)
+        self.known.iter().find(|k| k.status == "known" && key_matches(&k.key, key))
     }
 
     fn skip_section(&self, name: &str) -> bool {
@@ -580,7 +590,7 @@ impl Run {
                     match run_guarded(name, &case, &oracle, &mut r, risky) {
                         Ok(()) => Ok(()),
                         Err(f) => {
-                            if known_keys.contains(&f.key) {
+                            if known_keys.iter().any(|k| key_matches(k, &f.key)) {
                                 if !failed.get() {
                                     r.frozen = false;
                                     *r.known_seen.entry(f.key.clone()).or_insert(0) += 1;
@@ -696,7 +706,7 @@ impl Run {
                     match run_guarded(name, &case, &oracle, &mut rec, false) {
                         Ok(()) => {}
                         Err(f) => {
-                            if known_keys.contains(&f.key) {
+                            if known_keys.iter().any(|k| key_matches(k, &f.key)) {
                                 *rec.known_seen.entry(f.key.clone()).or_insert(0) += 1;
                             } else if !fails.contains_key(&f.key) && fails.len() < 8 {
                                 fails.insert(f.key.clone(), (i, case, f));
